@@ -254,6 +254,10 @@ func (d *Decoder) decompress(claimedUncompressedSize int, rd io.Reader) (decompr
 // or drop the packet.
 func (d *Decoder) decodePayload(p []byte) (ctx *proto.PacketContext, err error) {
 	registry := d.registry.Load()
+	if registry == nil {
+		// e.g. the play state has no fallback registry for an unknown protocol
+		return nil, errors.New("no packet registry for the connection's state and protocol")
+	}
 	ctx = &proto.PacketContext{
 		Direction: d.direction,
 		Protocol:  registry.Protocol,
